@@ -919,6 +919,12 @@ impl ActTask for Arc<Task> {
     fn next(&self, ctx: &Context) -> Result<bool> {
         ctx.set_task(self);
         let mut is_next = false;
+        // what an action gave to a finished task is written to the scopes before the successor
+        // is queued: the scheduler may run it at once on another thread
+        let was_completed = self.state().is_completed();
+        if was_completed {
+            self.update_data(&ctx.vars());
+        }
         if ctx.task().state().is_next() {
             is_next = match &self.node.content {
                 NodeContent::Workflow(data) => data.next(ctx)?,
@@ -929,7 +935,9 @@ impl ActTask for Arc<Task> {
         }
         debug!("is_next:{} task={:?}", is_next, ctx.task());
         if self.state().is_completed() {
-            self.update_data(&ctx.vars());
+            if !was_completed {
+                self.update_data(&ctx.vars());
+            }
             ctx.emit_task(self)?;
 
             if !is_next && !ctx.task().is_event_processed() {
